@@ -448,6 +448,17 @@ run_batch(const BatchCfg &cfg, const CaseSource &src, JW *extra_cov)
                                                         dup = true;
                                         if (dup && !v.key.empty())
                                                 continue;
+                                        if (getenv("VERIF_ENUM")) {
+                                                // enumeration aid (not a check): list every distinct violation class, no gate/shrink
+                                                WorkerOut::V rec;
+                                                rec.v = v;
+                                                rec.seed = run_seed;
+                                                out.viols.push_back(rec);
+                                                printf("CLASS property=%s oracle=%s key=%s seed=%llu :: %s\n", v.prop.c_str(), v.oracle.c_str(),
+                                                       v.key.c_str(), (unsigned long long) run_seed, v.detail.c_str());
+                                                fflush(stdout);
+                                                continue;
+                                        }
                                         if (out.viols.size() >= 6)
                                                 continue;
                                         WorkerOut::V rec;
